@@ -579,6 +579,17 @@ def run(tier: str, seed: int) -> Result:
         if u != v:
           check_pair(res, intern, stream, group[u], group[v], "identity_compared_default", True,
                      f"identity-default#{j}[{u},{v}]")
+  # *args callables with different numbers of variadic values (the first index missing on one side equals the
+  # number of parameters for one of the shapes)
+  for j, f in enumerate([l2.fc, l2.fb]):
+    lead = (1, 2) if f is l2.fb else ()
+    for n in range(0, 4):
+      a = fdl.Config(f, *lead, *range(n))
+      b = fdl.Config(f, *lead, *range(n + 1))
+      check_pair(res, intern, stream, a, b, "varargs_count", False, f"varargs-count#{j}.{n}")
+      check_pair(res, intern, stream, fdl.Config(l2.fd, x=[a]), fdl.Config(l2.fd, x=[b]), "varargs_count_nested", False,
+                 f"varargs-count-nested#{j}.{n}")
+      check_pair(res, intern, stream, a, copy.deepcopy(a), "varargs_count_copy", True, f"varargs-count-copy#{j}.{n}")
   # mixed-type dict keys must not make == raise
   a = fdl.Config(l2.fa, {1: [0], "a": [1]})
   check_pair(res, intern, stream, a, copy.deepcopy(a), "mixed_keys", True, "mixed-keys")
